@@ -1,4 +1,5 @@
 \* heads (v10), the code as it is under every schedule: Tee stage, window between height read and registration, reorg
+\* measured (8 TLC workers shared over 3 runs): 72019 distinct / 209570 generated states, depth 24, 18.3s
 CONSTANTS NSubs = 1 NConn = 1 InitLen = 2 MaxLen = 4 MaxTag = 4 MaxReverts = 1 MaxL1 = 0 MaxPc = 0 MaxTx = 1 MaxGw = 0 MaxRecv = 0 MaxTicks = 0 MaxBack = 3 MaxGot = 6
   Ver = 10 Kinds <- KHeads StartAtL1 <- NoL1 NoLag = FALSE QuietSub = FALSE ReorgPrio = FALSE TeeStage = TRUE Window = TRUE FixL1None = FALSE FixL1Order = FALSE BlockIds <- BidsMed
 INIT Init
